@@ -164,7 +164,7 @@ End RetrySpec.
 (* ---- the instance used by Runner::run_async *)
 Section RunAsync.
   Variable re : str -> str -> bool.
-  Variable substitute : bool -> list (str * str) -> str -> str + str.
+  Variable substitute : bool -> list (str * str) -> str -> subres.
   Variable sc : script.
 
   Definition att (r : record) := attempt_record re substitute sc r.
